@@ -20,6 +20,7 @@ import (
 	"os"
 	"path/filepath"
 	"strings"
+	"sync"
 	"sync/atomic"
 	"time"
 
@@ -70,11 +71,62 @@ func bodyID(b []byte) string {
 	return ""
 }
 
+// slowBody: an origin answer whose body takes well over half a minute (11 pieces, 3 s apart; thorough: 25 pieces) is relayed
+// completely, on the direct path (not storable, chunked) and on the store path (storable, sized). Runs in the background
+// of the other scenarios; the stage waits for it at the end.
+func slowBody(done chan<- struct{}) {
+	defer close(done)
+	pieces := 11
+	if *flagTier == "thorough" {
+		pieces = 25
+	}
+	dir := filepath.Join(*flagOut, "envslow")
+	env, err := e2elib.Start(e2elib.Options{Backend: "memory", Dir: dir})
+	if err != nil {
+		panic(err)
+	}
+	body := []byte(strings.Repeat("slow-body-0123456789;", 500))
+	env.Origin.SetHandler(func(req e2elib.OriginRequest, k int) e2elib.Answer {
+		a := e2elib.NewAnswer(200, body, "Cache-Control: max-age=600")
+		if strings.Contains(req.Target, "direct") {
+			a.Lines[0] = "Cache-Control: no-store"
+			a.Chunked = true
+		}
+		a.Pieces, a.PieceDelay = pieces, 3*time.Second
+		return a
+	})
+	var wg sync.WaitGroup
+	for _, path := range []string{"/slow-direct", "/slow-stored"} {
+		wg.Add(1)
+		go func(path string) {
+			defer wg.Done()
+			t0 := time.Now()
+			resp, err := env.DoPlain(env.PlainRequest("GET", path, nil, nil), "GET", time.Duration(pieces*3+30)*time.Second)
+			det := map[string]any{"request": path, "origin_body_duration_s": pieces * 3, "elapsed_s": int(time.Since(t0).Seconds())}
+			switch {
+			case err != nil:
+				fail("slow-body", det, "a slow but healthy origin answer got no response: "+err.Error())
+			case resp.Status != 200 || resp.BodyErr != "" || string(resp.Body) != string(body):
+				det["status"], det["body_bytes"], det["body_error"], det["want_bytes"] = resp.Status, len(resp.Body), resp.BodyErr, len(body)
+				fail("slow-body", det, "the body of a slow origin answer was not relayed completely")
+			}
+		}(path)
+	}
+	wg.Wait()
+	total += 2
+	dist["slow-body"] += 2
+	env.Close()
+	os.RemoveAll(dir)
+}
+
 func runC08x(r *emit.Rand) {
 	n := 40
 	if *flagTier == "thorough" {
 		n = 400
 	}
+	slowDone := make(chan struct{})
+	go slowBody(slowDone)
+	defer func() { <-slowDone }()
 	for i := 0; i < n; i++ {
 		backend := emit.Pick(r, []string{"memory", "file"})
 		tlsOn := r.Chance(30)
@@ -227,6 +279,18 @@ func runC10x(r *emit.Rand) {
 		}
 		return a
 	})
+	// opened now, used at the very end of the stage (see old-tunnel below)
+	oldTunnelAt := time.Now()
+	oldTunnel, _, err := env.DialTunnel(env.Origin.Addr, "127.0.0.1", 8*time.Second)
+	if err == nil {
+		oldTunnel.Send(env.TunnelRequest("GET", "/old-tunnel/a0", nil, nil), 5*time.Second)
+		if _, err := oldTunnel.Read("GET", 6*time.Second); err != nil {
+			oldTunnel.Close()
+			oldTunnel = nil
+		}
+	} else {
+		oldTunnel = nil
+	}
 	for i := 0; i < n; i++ {
 		k := 2 + r.Intn(5)
 		type rq struct {
@@ -324,6 +388,62 @@ func runC10x(r *emit.Rand) {
 			}
 		}
 		c.Close()
+	}
+	// Expect: 100-continue with a body, answered with a body of unknown length, then another exchange on the same tunnel
+	for i, chunkedAnswer := range []bool{true, false} {
+		c, _, err := env.DialTunnel(env.Origin.Addr, "127.0.0.1", 8*time.Second)
+		if err != nil {
+			panic(err)
+		}
+		p1 := fmt.Sprintf("/expect-%d/a1", i)
+		if chunkedAnswer {
+			p1 = fmt.Sprintf("/expect-%d/chunked1", i)
+		}
+		p2 := fmt.Sprintf("/expect-%d/b2", i)
+		payload := strings.Repeat("u", 200)
+		c.Send([]byte(fmt.Sprintf("POST %s HTTP/1.1\r\nHost: %s\r\nExpect: 100-continue\r\nContent-Length: %d\r\n\r\n%s", p1, env.Origin.Addr, len(payload), payload)), 5*time.Second)
+		total++
+		dist["expect-continue-then-next"]++
+		det := map[string]any{"first": "POST " + p1 + " with Expect: 100-continue and a 200-byte body", "origin_answer_chunked": chunkedAnswer, "second": "GET " + p2}
+		r1, err1 := c.Read("POST", 5*time.Second)
+		for err1 == nil && r1.Status == 100 { // an interim response is legal; the final one follows
+			r1, err1 = c.Read("POST", 5*time.Second)
+		}
+		if err1 != nil || r1.BodyErr != "" || !strings.HasPrefix(string(r1.Body), "target="+p1+";") || strings.Contains(string(r1.Body), "HTTP/1.") {
+			if r1 != nil {
+				det["first_status"], det["first_framing"], det["first_body"] = r1.Status, r1.Framing, trunc(string(r1.Body))
+			}
+			fail("expect-continue-then-next", det, "the answer to a request with Expect: 100-continue on a tunnel is not delivered with usable framing")
+			c.Close()
+			continue
+		}
+		if !r1.Close && r1.Framing != "close" {
+			c.Send(env.TunnelRequest("GET", p2, nil, nil), 5*time.Second)
+			r2, err2 := c.Read("GET", 5*time.Second)
+			if err2 != nil || !strings.HasPrefix(string(r2.Body), "target="+p2+";") {
+				fail("expect-continue-then-next", det, "the exchange after a request with Expect: 100-continue on the same tunnel did not get its own answer")
+			}
+		}
+		c.Close()
+	}
+	// a tunnel that has been open for a while (kept-alive, > 12 s) still carries exchanges
+	if oldTunnel != nil {
+		if wait := 12*time.Second - time.Since(oldTunnelAt); wait > 0 {
+			time.Sleep(wait)
+		}
+		p := "/old-tunnel/a9"
+		oldTunnel.Send(env.TunnelRequest("GET", p, nil, nil), 5*time.Second)
+		rr, err := oldTunnel.Read("GET", 6*time.Second)
+		total++
+		dist["old-tunnel"]++
+		det := map[string]any{"tunnel_age_s": int(time.Since(oldTunnelAt).Seconds()), "request": "GET " + p}
+		if err != nil {
+			fail("old-tunnel", det, "an exchange on a tunnel that had been open for a while got no response: "+err.Error())
+		} else if !strings.HasPrefix(string(rr.Body), "target="+p+";") {
+			det["status"] = rr.Status
+			fail("old-tunnel", det, "an exchange on a tunnel that had been open for a while did not get its own answer")
+		}
+		oldTunnel.Close()
 	}
 	// an exchange the proxy has to refuse (Host that cannot be turned into a target) whose BODY looks like a request,
 	// followed by a real exchange: the body is payload of the first exchange and of nothing else
@@ -580,8 +700,53 @@ func hangupC09x() {
 	}
 }
 
+// cacheDirGone: the cache directory disappears while the proxy runs — removed (can be put back), replaced by a dangling
+// symbolic link or by a regular file (cannot). The origin is healthy: every request is answered with its 200.
+func cacheDirGone() {
+	for _, how := range []string{"removed", "dangling-symlink", "regular-file"} {
+		dir := filepath.Join(*flagOut, "envgone-"+how)
+		env, err := e2elib.Start(e2elib.Options{Backend: "file", Dir: dir})
+		if err != nil {
+			panic(err)
+		}
+		env.Origin.SetHandler(func(req e2elib.OriginRequest, k int) e2elib.Answer {
+			return e2elib.NewAnswer(200, []byte("T="+req.Target+";"+strings.Repeat("g", 300)), "Cache-Control: max-age=600")
+		})
+		get := func(path string) (*e2elib.Response, error) {
+			return env.DoPlain(env.PlainRequest("GET", path, nil, nil), "GET", 4*time.Second)
+		}
+		get("/before")
+		cacheDir := filepath.Join(dir, "cache")
+		os.RemoveAll(cacheDir)
+		switch how {
+		case "dangling-symlink":
+			os.Symlink(filepath.Join(dir, "no-such-volume", "cache"), cacheDir)
+		case "regular-file":
+			os.WriteFile(cacheDir, []byte("not a directory"), 0644)
+		}
+		for i := 0; i < 3; i++ {
+			path := fmt.Sprintf("/gone%d", i)
+			resp, err := get(path)
+			total++
+			dist["cache-dir-gone/"+how]++
+			det := map[string]any{"cache_dir": how, "request": path}
+			if err != nil {
+				fail("cache-dir-gone", det, "a request the origin answers fine got no response (dropped connection or hang): "+err.Error())
+				break
+			}
+			if resp.Status != 200 || !strings.HasPrefix(string(resp.Body), "T="+path+";") {
+				det["status"] = resp.Status
+				fail("cache-dir-gone", det, "the origin's good answer was not delivered")
+			}
+		}
+		env.Close()
+		os.RemoveAll(dir)
+	}
+}
+
 func runC09x(r *emit.Rand) {
 	hangupC09x()
+	cacheDirGone()
 	for _, shards := range []int{1, 2, 32} {
 		dir := filepath.Join(*flagOut, fmt.Sprintf("envx%d", shards))
 		env, err := e2elib.Start(e2elib.Options{Backend: "file", Dir: dir, Shards: shards, Tune: func(cfg *config.Config) {
